@@ -1,7 +1,35 @@
 /-
-  C03 — see AL.Spec.X86 (reference decoder) and AL.Spec.X86Families (quantifier domain).
+  C03 — immediate operands keep their value at the operand's width.
+
+  Statement: for every instance d of the family — every entry with an immediate, register and memory
+  destinations, the boundary values of the operand size, in hexadecimal, decimal and negated spellings —
+      decode (assemble (render d)) = d   (immediate: width of the opcode's field, value after the
+      architecture's extension = the written value modulo the operand size).
+   * `Sweep.c03_sweep`        — the quick family x the three mov-immediate modes on the model, by evaluation
+                                (mov r64, imm ≤ 0xffffffff may be written to the 32-bit register: C11);
+   * `written_number_value`   — kernel-checked, for EVERY n < 2^64: the decimal spelling, the hexadecimal
+                                spelling with any number of leading zeros, and their negations are converted
+                                by imm_tok to n resp. 2^64 − n with nothing left over
+                                (AL.Lemmas.immTok_dec / immTok_hex / immTok_neg_dec / immTok_neg_hex);
+   * `imm_field_reads_back`   — kernel-checked, for EVERY value: the immediate bytes the model emits read
+                                back (little endian, any zero padding) as the value.
 -/
-import AL.Spec.X86Families
-import AL.Impl.Line
+import AL.Properties.Sweep.C03
+import AL.Lemmas.Numerals
+import AL.Spec.X86Lemmas
 namespace AL.Properties.C03
+open AL AL.Impl AL.Gen AL.Lemmas AL.Spec.X86
+
+/-- **decimal / hexadecimal / leading zeros / negation: the same number** -/
+theorem written_number_value (s : Instr) (n k : Nat) (hn : n < 2 ^ 64) :
+    (∃ r, immTok s (decStr n) = .ok r ∧ r.cons = n ∧ r.imm = true) ∧
+    (∃ r, immTok s (48 :: 120 :: hexDigs k n) = .ok r ∧ r.cons = n ∧ r.imm = true) ∧
+    (∃ r, immTok s (45 :: decStr n) = .ok r ∧ r.cons = (2 ^ 64 - n) % 2 ^ 64) ∧
+    (∃ r, immTok s (45 :: 48 :: 120 :: hexDigs k n) = .ok r ∧ r.cons = (2 ^ 64 - n) % 2 ^ 64) :=
+  ⟨⟨_, immTok_dec s n hn, rfl, rfl⟩, ⟨_, immTok_hex s k n hn, rfl, rfl⟩,
+   ⟨_, immTok_neg_dec s n hn, rfl⟩, ⟨_, immTok_neg_hex s k n hn, rfl⟩⟩
+
+theorem imm_field_reads_back (c k : Nat) (h : c < 2 ^ 64) : leVal (assembleConst c ++ List.replicate k 0) = c :=
+  leVal_assembleConst c h k
+
 end AL.Properties.C03
